@@ -129,3 +129,21 @@ _c.tags = dict(_c.tags, C08=["C08", "C01", "C02"])
 _c.requires = list(_c.requires) + [NOALIAS, AFFEQ_FULL] + [(n + "0", e) for n, e in FIX_STATE]
 _c.loops[1]["step_hints"] = [ROWS_BELOW, NEW_ROW(T_IT0), NEW_ROW(T_IT0 + " + 1"), NEW_ROW(T_IT0 + " + 2")]
 _c.loops[1]["return_hints"] = [ROWS_BELOW]
+
+# ------------------------------------------------------------------ acceptance for ARBITRARY wake-up masks (C01): fixpoint layer + J + bridge axiom A-FIX-ACC.
+# ConsistencyAlgFixJ = conjunction of two verified contracts of the same functions (#fix and #j), for BC and for shaving.
+interface("ConsistencyAlgFixJ", types=ENGINE_T, requires=WF_STATIC + WF_DYN + FIX_REQ + [("C01.J0", ACC_J(SS))], ensures=CA_FIX_ENS + [ACC_ENS[1]], modifies=CA_MOD)
+POINT_BRIDGE = f"forall(p, 0, P, axiom_fix_point({SS}, stacks_top[0], p))"
+solve_one_contract("accp", "iface:ConsistencyAlgFixJ",
+    [(f"C17.backtracks", f"{dstat(BT)} >= bt")] + FIX_STATE + [("C01.JL", ACC_JL)],
+    [("C01.satisfies", f"implies(result is not None and forall(d, 0, D, trig(d) == d and sigma[d] == {SS}[stacks_top[0], d, MIN]), forall(p, 0, P, rel_holds(p)))"),
+     ("C08.K_post", f"implies(result is not None, {FIX_K(SS, 'triggered_propagators', '-1')})"), ("C08.KL_post", f"implies(result is not None, {FIX_KL})"),
+     ("C01.JL_post", f"implies(result is not None, {ACC_JL})")],
+    timeout_ms=200000, snap_after={"consistency_alg_fct": {"S_mid": "shr_domains_stack"}}, ghost_results={"dom_heuristic_fct": "ev_top"})
+_c = REG.contracts["nucs/solvers/backtrack_solver.py::solve_one#accp"]
+_c.extra["ghost_init"] = dict(_c.extra["ghost_init"], ev_top=0)
+_c.props = ["C01"]
+_c.requires = list(_c.requires) + [NOALIAS, AFFEQ_FULL] + [(n + "0", e) for n, e in FIX_STATE] + [("C01.JL0", ACC_JL)]
+_c.extra["defs"] = [V_DEF]
+_c.loops[1]["step_hints"] = [ROWS_BELOW, NEW_ROW(T_IT0), NEW_ROW(T_IT0 + " + 1"), NEW_ROW(T_IT0 + " + 2")]
+_c.loops[1]["return_hints"] = [ROWS_BELOW, POINT_BRIDGE]
